@@ -13,7 +13,7 @@ def sh(cmd, cwd, timeout=3600):
     return p.returncode, p.stdout
 demo_cmd = None
 for l in meta["ran"]:
-    m = re.match(r"(go test .*) \(with patch\)", l)
+    m = re.match(r"((?:env \S+=\S+ )*go test .*) \(with patch\)", l)
     if m:
         demo_cmd = shlex.split(m.group(1))
 pkgdir = [a for a in demo_cmd if a.startswith("./")][-1].rstrip("/").lstrip("./")
